@@ -7,7 +7,8 @@ import logging
 import time
 
 from .. import drive, gen, observe, oracle
-from ..observe import LogCapture, config_of
+from ..observe import (Interpreter, LogCapture, MachineLogic, SyncInterpreter, config_of, create_machine,
+                       drain, run_virtual)
 from .common import Result, Watchdog, h, mk_chunks, plan_summary, rng_for
 
 ID = "C10"
@@ -403,6 +404,84 @@ def _event_of(log, start, marker):
     return ev
 
 
+def queued_behind_completion(res: Result, engine, how):
+    """Events that are already queued when the machine reaches its top-level final state - the rest
+    of a send_events() batch, events raised by the completing transition itself, a send from
+    another thread/task during the completing macrostep - are discarded: no guard, no action, no
+    context change after completion."""
+    import threading
+    ran = []
+    gate = {"sent": False}
+
+    def mk(n):
+        return lambda i, c, e, a: ran.append(n)
+
+    def late(i, c, e, a):
+        ran.append("fin-action")
+        if how == "other-thread" and engine == "sync" and not gate["sent"]:
+            gate["sent"] = True
+            th = threading.Thread(target=lambda: i.send("X"), daemon=True)
+            th.start()
+            th.join(1.0)
+
+    def g(ctx, ev):
+        ran.append("guard-evaluated-after-done")
+        return True
+    fin_actions = ["late"]
+    if how == "raised":
+        fin_actions.append({"type": "xstate.raise", "params": {"event": "X"}})
+    cfg = {"id": "m", "initial": "a", "context": {"n": 0},
+           "on": {"X": {"guard": "g", "actions": ["x-handled", {"type": "xstate.assign", "params": {
+               "assignment": {"n": 99}}}]}},
+           "states": {"a": {"on": {"FIN": {"target": "f", "actions": fin_actions}}}, "f": {"type": "final"}}}
+    acts = {"x-handled": mk("x-handled"), "late": late}
+    if engine == "async" and how == "other-task":
+        async def late_async(i, c, e, a):
+            ran.append("fin-action")
+            await asyncio.sleep(0.002)
+        acts["late"] = late_async
+    machine = create_machine(cfg, logic=MachineLogic(actions=acts, guards={"g": g}))
+    out = {}
+    if engine == "sync":
+        it = SyncInterpreter(machine).start()
+        if how == "batch":
+            it.send_events(["FIN", "X", "X"])
+        else:
+            it.send("FIN")
+        out["status"], out["ctx"] = it.status, dict(it.context)
+        it.stop()
+    else:
+        async def body():
+            it = Interpreter(machine)
+            await it.start()
+            if how == "batch":
+                await it.send_events(["FIN", "X", "X"])
+            elif how == "other-task":
+                async def later():
+                    await asyncio.sleep(0.001)
+                    await it.send("X")
+                t = asyncio.ensure_future(later())
+                await it.send("FIN")
+                await t
+            else:
+                await it.send("FIN")
+            await asyncio.sleep(0.01)
+            await drain(it, max_yields=300)
+            out["status"], out["ctx"] = it.status, dict(it.context)
+            await it.stop()
+        run_virtual(body)
+    res.evaluations += 1
+    res.count("queued-behind-completion." + engine)
+    res.hashes.add(h(["queued-behind", engine, how]))
+    wit = {"engine": engine, "how": how, "ran": ran, "status": out.get("status"), "context": out.get("ctx")}
+    if out.get("status") != "done":
+        res.violation("C10:top-level-final-did-not-complete/%s" % engine, "status %s" % out.get("status"), wit)
+    elif [r for r in ran if r != "fin-action"] or out["ctx"].get("n") != 0:
+        res.violation("C10:queued-event-processed-after-completion/%s/%s" % (how, engine),
+                      "after the machine completed, user code still ran / context changed: %s, n=%s" % (
+                          [r for r in ran if r != "fin-action"], out["ctx"].get("n")), wit)
+
+
 def run_chunk(spec):
     observe.quiet_logs()
     res = Result()
@@ -420,6 +499,13 @@ def run_chunk(spec):
         run_case(res, spec, base + j)
         for t in range(4):
             template_case(res, spec, (base + j) * 4 + t)
+    k = 0
+    for engine, hows in (("sync", ("batch", "raised", "other-thread")), ("async", ("batch", "raised", "other-task"))):
+        for how in hows:
+            if k % 16 == spec["chunk"] % 16:
+                wd.arm("queued behind completion %s %s" % (engine, how))
+                queued_behind_completion(res, engine, how)
+            k += 1
     wd.disarm()
     return res.to_json()
 
@@ -429,7 +515,8 @@ def quota(counters, tier):
     for k in ("edges.compound", "edges.parallel", "firings", "done-data.checked",
               "top-level-completions", "post-done.sends", "status-watch.done-writes",
               "stop-after-done.checked", "template.runs.sync", "template.runs.async",
-              "template.with-history-child", "template.with-region-onDone", "template.regions-4"):
+              "template.with-history-child", "template.with-region-onDone", "template.regions-4",
+              "queued-behind-completion.sync", "queued-behind-completion.async"):
         if counters.get(k, 0) == 0:
             out.append("monitor-never-reached:" + k)
     return out
